@@ -91,8 +91,15 @@ def docBothPrincipals : Json :=
 def docStringPrincipal : Json := .obj [(kStatement, stmtWith (.str nAllow) [(kPrincipal, .str sRoot)])]
 def docNullPrincipal : Json := .obj [(kStatement, stmtWith (.str nAllow) [(kNotPrincipal, .null)])]
 
-/-! documents outside the grammar that are accepted (the remaining `quirk` region) -/
+/-! `Effect` / `Version` written `{"<name>": null}`: accepted before the repair of their readers
+    (`docEffectObjectForm` read like `doc2` without its version), refused now; `Deny` in the second
+    statement of a list; both at once -/
 def docEffectObjectForm : Json := .obj [(kStatement, stmtWith (.obj [(nAllow, .null)]) [])]
+def docVersionObjectForm : Json := .obj [(kVersion, .obj [(n2012, .null)]), (kStatement, stmtWith (.str nAllow) [])]
+def docEffectObjectFormInList : Json :=
+  .obj [(kStatement, .arr [stmtWith (.str nAllow) [], stmtWith (.obj [(nDeny, .null)]) []])]
+def docBothObjectForms : Json :=
+  .obj [(kVersion, .obj [(n2008, .null)]), (kStatement, stmtWith (.obj [(nAllow, .null)]) [])]
 
 /-! the policy written as an array `[version, id, statement]`: accepted before the repair of `Policy`'s
     reader (read like `doc2`), refused now; with a statement list, and with fewer / more elements -/
@@ -101,7 +108,7 @@ def docArrayFormList : Json := .arr [.null, .str sTrue, .arr [stmtWith (.str nAl
 def docArrayFormShort : Json := .arr [.str n2012, .null]
 def docArrayFormLong : Json := .arr [.str n2012, .null, stmtWith (.str nAllow) [], .null]
 
-/-- what `docEffectObjectForm` is read as (and the former witnesses were): `doc2` without / with its version -/
+/-- what the former witnesses were read as: `doc2` without / with its version -/
 def policy2 (v : Option Version) : Policy :=
   { version := v, id := none,
     statement := .one { sid := none, principal := none, effect := .allow, action := .action (.one sListBucket),
